@@ -5,13 +5,13 @@ CONFIG = {
     ],
     "trusted_base": [
         "libc crypt(3) (libxcrypt, DES) through cgo: used only as the oracle P-hat for clause (a) and for CheckPasswd on well-formed hashes, never as proof",
-        "hand-written FIPS 46 tables (S1-S8, P, PC-2) and the salt-character formula in PttVerif/Model/C02Spec.lean: a wrong entry fails a kernel-checked table theorem on the unchanged tree",
+        "hand-written textbook DES-crypt specification PttVerif/Model/C02Spec.lean (FIPS 46 IP, FP, E, P, PC-1, PC-2, S1-S8, shift schedule; crypt(3) salt perturbation, 25 iterations, base-64 packing): a wrong entry fails fcrypt_eq_crypt3 / a table theorem on the unchanged tree and disagrees with libc in the `spec` ops",
         "math/rand: rand.Seed(k) makes the global source reproduce rand.New(rand.NewSource(k)) (checked at harness start); the model takes the drawn number as a parameter",
     ],
     "modelled": ["crypt.Fcrypt/cFcrypt", "crypt.desSetKey", "crypt.body/dEncrypt", "crypt.PermOp/HPermOp/c2l/l2c",
                  "cmbbs.GenPasswd", "cmbbs.CheckPasswd"],
     "assumptions": [
-        "clause (a) 'equals crypt(3)' is PARTIAL: proved are table exactness (every SPtrans/skb/con_salt/cov_2char/shifts2 entry equals its FIPS-46 / crypt(3) definition), the output format, and of the functional equality with the textbook Spec.crypt3 the whole key schedule for every password, the delivery of key and E(R) blocks to the S-boxes, FP and IP.FP=id (reflective GF(2)-linear circuit checker, Proofs/C02Lin.lean); not proved: the salt perturbation of E, the recombination of the eight S-box outputs, the induction over 25x16 rounds and the output packing - those are judged on every run by P-hat against libc and by running Spec.crypt3 next to the implementation",
+        "clause (a) is proved in full against the hand-written textbook Spec.crypt3 (fcrypt_eq_crypt3); that Spec.crypt3 is what libc crypt(3) computes is not a theorem: it is checked on every run by evaluating Spec.crypt3 (driver op `spec`), the implementation and libc on every generated alphabet-salt pair",
         "clause (d) 'rejected for any other effective key' is not a theorem (DES-crypt collisions exist in principle); it is sampled by P-hat (all 56 single-bit key flips of sampled keys) and never presented as proof",
     ],
 }
